@@ -39,14 +39,18 @@ type Violation struct {
 	Desc string
 }
 
+// pcs is a raw call stack; it is resolved to function names only when a violation is reported.
+type pcs [12]uintptr
+
 type buf struct {
-	h         *[]byte
-	freed     bool
-	arr       []byte // full-capacity view of the array at the time of free (kept alive)
-	allocSite string
-	freeSite  string
-	id        int
-	size      int
+	h       *[]byte
+	freed   bool
+	arr     []byte // full-capacity view of the array at the time of free (kept alive)
+	allocPC pcs
+	freePC  pcs
+	hasFree bool
+	id      int
+	size    int
 }
 
 // T is the tracking allocator.
@@ -68,10 +72,20 @@ func New(p Policy) *T {
 	return &T{Policy: p, bufs: map[*[]byte]*buf{}}
 }
 
-func site() string {
-	pcs := make([]uintptr, 24)
-	n := runtime.Callers(3, pcs)
-	frames := runtime.CallersFrames(pcs[:n])
+func here() (p pcs) {
+	runtime.Callers(3, p[:])
+	return
+}
+
+func (p pcs) String() string {
+	n := 0
+	for n < len(p) && p[n] != 0 {
+		n++
+	}
+	if n == 0 {
+		return ""
+	}
+	frames := runtime.CallersFrames(p[:n])
 	var chain []string
 	for {
 		f, more := frames.Next()
@@ -104,10 +118,17 @@ func topSite(s string) string {
 	return s
 }
 
-func (t *T) report(kind string, b *buf, use string, extra string) {
-	sig := kind + " alloc=" + topSite(b.allocSite)
-	if b.freeSite != "" {
-		sig += " free=" + topSite(b.freeSite)
+func (t *T) report(kind string, b *buf, usePC *pcs, extra string) {
+	allocSite, freeSite, use := b.allocPC.String(), "", ""
+	if b.hasFree {
+		freeSite = b.freePC.String()
+	}
+	if usePC != nil {
+		use = usePC.String()
+	}
+	sig := kind + " alloc=" + topSite(allocSite)
+	if freeSite != "" {
+		sig += " free=" + topSite(freeSite)
 	}
 	if use != "" {
 		sig += " use=" + topSite(use)
@@ -118,7 +139,20 @@ func (t *T) report(kind string, b *buf, use string, extra string) {
 		}
 	}
 	t.viol = append(t.viol, Violation{Kind: kind, Sig: sig,
-		Desc: fmt.Sprintf("%s of buffer #%d (size %d) allocated at [%s], freed at [%s], used at [%s]%s", kind, b.id, b.size, b.allocSite, b.freeSite, use, extra)})
+		Desc: fmt.Sprintf("%s of buffer #%d (size %d) allocated at [%s], freed at [%s], used at [%s]%s", kind, b.id, b.size, allocSite, freeSite, use, extra)})
+}
+
+// reportNamed is report with a use site given by name (observation points of the harness).
+func (t *T) reportNamed(kind string, b *buf, use string) {
+	allocSite, freeSite := b.allocPC.String(), b.freePC.String()
+	sig := kind + " alloc=" + topSite(allocSite) + " free=" + topSite(freeSite) + " use=" + use
+	for _, v := range t.viol {
+		if v.Sig == sig {
+			return
+		}
+	}
+	t.viol = append(t.viol, Violation{Kind: kind, Sig: sig,
+		Desc: fmt.Sprintf("%s of buffer #%d (size %d) allocated at [%s], freed at [%s], observed at [%s]", kind, b.id, b.size, allocSite, freeSite, use)})
 }
 
 func (t *T) capFor(size int) int {
@@ -132,7 +166,7 @@ func (t *T) capFor(size int) int {
 	return c
 }
 
-func (t *T) alloc(size int, where string) *[]byte {
+func (t *T) alloc(size int, where pcs) *[]byte {
 	c := t.capFor(size)
 	arr := make([]byte, c)
 	if t.Policy == Stale {
@@ -143,7 +177,7 @@ func (t *T) alloc(size int, where string) *[]byte {
 	arr = arr[:size]
 	h := &arr
 	t.nextID++
-	t.bufs[h] = &buf{h: h, allocSite: where, id: t.nextID, size: size}
+	t.bufs[h] = &buf{h: h, allocPC: where, id: t.nextID, size: size}
 	t.liveBytes += size
 	if t.liveBytes > t.PeakLive {
 		t.PeakLive = t.liveBytes
@@ -162,12 +196,13 @@ func (t *T) Malloc(size int) *[]byte {
 	if size < 0 {
 		size = 0
 	}
-	return t.alloc(size, site())
+	return t.alloc(size, here())
 }
 
-func (t *T) free(b *buf, where string) {
+func (t *T) free(b *buf, where pcs) {
 	b.freed = true
-	b.freeSite = where
+	b.freePC = where
+	b.hasFree = true
 	full := (*b.h)[:cap(*b.h)]
 	for i := range full {
 		full[i] = poisonByte
@@ -189,22 +224,22 @@ func (t *T) Free(h *[]byte) {
 		t.ForeignFrees++
 		return
 	}
-	where := site()
+	where := here()
 	if b.freed {
-		t.report("double-free", b, where, "")
+		t.report("double-free", b, &where, "")
 		return
 	}
 	t.Frees++
 	t.free(b, where)
 }
 
-func (t *T) grow(h *[]byte, b *buf, more int, where string) *[]byte {
+func (t *T) grow(h *[]byte, b *buf, more int, where pcs) *[]byte {
 	// called with lock held; h live
 	old := *h
 	if cap(old)-len(old) >= more || !t.MoveOnGrow {
 		return h
 	}
-	nh := t.alloc(len(old)+more, b.allocSite)
+	nh := t.alloc(len(old)+more, b.allocPC)
 	*nh = (*nh)[:len(old)]
 	copy(*nh, old)
 	t.liveBytes -= more // alloc counted len+more; the caller adds more again
@@ -222,9 +257,9 @@ func (t *T) Append(h *[]byte, more ...byte) *[]byte {
 		*h = append(*h, more...)
 		return h
 	}
-	where := site()
+	where := here()
 	if b.freed {
-		t.report("append-after-free", b, where, "")
+		t.report("append-after-free", b, &where, "")
 		// do not touch the poisoned array; give the caller a detached copy to keep going
 		cp := append(append([]byte(nil), (*h)...), more...)
 		return &cp
@@ -248,9 +283,9 @@ func (t *T) AppendString(h *[]byte, more string) *[]byte {
 		*h = append(*h, more...)
 		return h
 	}
-	where := site()
+	where := here()
 	if b.freed {
-		t.report("append-after-free", b, where, "")
+		t.report("append-after-free", b, &where, "")
 		cp := append(append([]byte(nil), (*h)...), more...)
 		return &cp
 	}
@@ -278,9 +313,9 @@ func (t *T) Realloc(h *[]byte, size int) *[]byte {
 		copy(n, *h)
 		return &n
 	}
-	where := site()
+	where := here()
 	if b.freed {
-		t.report("realloc-after-free", b, where, "")
+		t.report("realloc-after-free", b, &where, "")
 		n := make([]byte, size)
 		return &n
 	}
@@ -289,7 +324,7 @@ func (t *T) Realloc(h *[]byte, size int) *[]byte {
 		*h = (*h)[:size]
 		return h
 	}
-	nh := t.alloc(size, b.allocSite)
+	nh := t.alloc(size, b.allocPC)
 	copy(*nh, *h)
 	t.free(b, where)
 	return nh
@@ -316,7 +351,7 @@ func (t *T) Use(data []byte, where string) {
 	defer t.mu.Unlock()
 	for _, b := range t.freed {
 		if overlaps(data, b.arr) {
-			t.report("read-after-free", b, where, "")
+			t.reportNamed("read-after-free", b, where)
 		}
 	}
 }
@@ -328,7 +363,7 @@ func (t *T) Sweep() {
 	for _, b := range t.freed {
 		for i, c := range b.arr {
 			if c != poisonByte {
-				t.report("write-after-free", b, "", fmt.Sprintf(" (byte %d of the freed array changed to 0x%02x)", i, c))
+				t.report("write-after-free", b, nil, fmt.Sprintf(" (byte %d of the freed array changed to 0x%02x)", i, c))
 				break
 			}
 		}
@@ -371,7 +406,7 @@ func (t *T) LiveSites() []string {
 	var out []string
 	for _, b := range t.bufs {
 		if !b.freed {
-			out = append(out, b.allocSite)
+			out = append(out, b.allocPC.String())
 		}
 	}
 	return out
